@@ -74,7 +74,8 @@ def build_case(rng, ncat, nnum, levels, terms_idx=None, exhaustive=False):
             fexpr[c] = f"C({c}, {k})"
     for v in nums:
         # numeric factors incl. multi-column ones and one that itself spans the intercept (full B-spline basis)
-        fexpr[v] = rng.choice([v, v, f"{{{v}*2}}", f"I({v}**3)", f"poly({v}, 2)", f"bs({v}, df=3)", f"bs({v}, df=4, include_intercept=True)"])
+        fexpr[v] = rng.choice([v, v, f"{{{v}*2}}", f"I({v}**3)", f"poly({v}, 2)", f"bs({v}, df=3)", f"bs({v}, df=4, include_intercept=True)"]
+                              + ([f"cr({v}, df=3)", f"cc({v}, df=3)", f"cr({v}, df=3, constraints='center')"] if rng.random() < 0.25 else []))
     if cats and nums and rng.random() < 0.15:
         # a data column whose name is another column's name followed by '-' (only referable through backticks)
         odd = cats[0] + "-"
@@ -99,7 +100,7 @@ def build_case(rng, ncat, nnum, levels, terms_idx=None, exhaustive=False):
 
 def full_cols_of(case) -> int:
     lv, fx = case["levels"], case["fexpr"]
-    width = {v: (4 if "include_intercept" in fx[v] else 3 if "bs(" in fx[v] else 2 if "poly(" in fx[v] else 1) for v in case["nums"]}
+    width = {v: (4 if "include_intercept" in fx[v] else 3 if fx[v].startswith(("bs(", "cr(", "cc(")) else 2 if "poly(" in fx[v] else 1) for v in case["nums"]}
     return sum(int(np.prod([len(lv[v]) if v in lv else width[v] for v in t])) for t in case["terms"]) + 1
 
 
@@ -183,7 +184,15 @@ def judge(case) -> Outcome:
     rb = np.linalg.matrix_rank(np.hstack([R, F]))
     names = list(red.model_spec.column_names)
     if rr != R.shape[1]:
-        out.fail("c03.not_full_rank", f"{tag}: reduced matrix has {R.shape[1]} columns but rank {rr}; columns {names}")
+        # finding K13: an unconstrained cr()/cc() basis sums to one but declares that it does not span the intercept. The
+        # deficiency is attributed to it only if dropping the first column of every such block (alone or inside products) leaves a
+        # matrix of full column rank.
+        cubic = [fx for fx in case["fexpr"].values() if fx.startswith(("cr(", "cc(")) and "constraints" not in fx]
+        keep = [j for j, nm in enumerate(names) if not any(f"{fx}[1]" in nm for fx in cubic)]
+        if cubic and len(keep) < len(names) and np.linalg.matrix_rank(R[:, keep]) == len(keep):
+            out.fail("c03.unconstrained_cubic_spline_spans_intercept", f"{tag}: {R.shape[1]} columns, rank {rr}: the cr/cc basis {cubic} sums to one next to a term it is crossed with or the intercept")
+        else:
+            out.fail("c03.not_full_rank", f"{tag}: reduced matrix has {R.shape[1]} columns but rank {rr}; columns {names}")
     elif not (rr == rf == rb):
         out.fail("c03.span_changed", f"{tag}: rank(reduced)={rr}, rank(full)={rf}, rank([reduced|full])={rb}; columns {names}")
     if len(set(names)) != len(names):
